@@ -1,19 +1,17 @@
 SPECIFICATION Spec
 CONSTANTS
-  NObj = 4
-  MaxId = 3
-  Nss = {1, 2}
-  Maxes <- MaxesLarge
-  Kinds = {1, 2, 3, 4, 5, 6, 7}
+  NObj = 3
+  MaxId = 2
+  Nss = {1}
+  Maxes <- MaxesSmall
+  Kinds = {1, 2}
   Toggles = TRUE
   DefaultMax = 2
   LegacyPullZero = FALSE
-  LegacyTrimRaw = FALSE
-  GenDepth = 10
+  LegacyTrimRaw = TRUE
+  GenDepth = 0
   Cover = FALSE
 INVARIANT ImplRefinesReq
 INVARIANT MappingHolds
 INVARIANT SessionHolds
-
-CONSTRAINT GenConstraint
 CHECK_DEADLOCK FALSE
